@@ -31,7 +31,7 @@ use crate::ptrace::run_traced;
 pub fn jj_binary() -> PathBuf {
     std::env::var_os("JJ_BIN")
         .map(PathBuf::from)
-        .unwrap_or_else(|| PathBuf::from("/repo/target/debug/jj"))
+        .unwrap_or_else(|| runner::verif_dir().join("target/jjbin/debug/jj"))
 }
 
 #[derive(Clone, Debug)]
@@ -554,6 +554,7 @@ struct Item {
     step: usize,
     k: usize,
     torn: bool,
+    prio: u8,
 }
 
 fn workload_for(seed: u64, index: u64) -> Workload {
@@ -647,7 +648,7 @@ fn run_item(root: &Path, w: &Workload, reference: &Reference, step: usize, k: us
 pub fn budget(tier: Tier) -> (u64, u64, u64) {
     // (workloads, sample one kill point in N (1 = all), max seconds)
     match tier {
-        Tier::Quick => (3, 4, 100),
+        Tier::Quick => (2, 6, 110),
         Tier::Thorough => (60, 1, 1500),
     }
 }
@@ -682,14 +683,30 @@ pub fn check_main(tier: Tier, seed: u64, workers: u64, write_evidence: bool, n_w
                 for (j, n) in r.kill_points.iter().enumerate() {
                     total_points += n + 1;
                     for k in 0..=*n {
-                        // always the first and last 5; a seeded subset of the rest
-                        let edge = k < 5 || k + 5 >= *n;
-                        if sample == 1 || edge || rng.choose(sample as usize) == 0 {
-                            items.push(Item { workload: wi as usize, step: j, k, torn: false });
+                        // Bias towards the instants that matter for atomic
+                        // publication: everything that touches the operation
+                        // heads, every unlink, every rename and the very
+                        // first/last points are always taken; plain data
+                        // writes are sampled.
+                        let desc = r.syscall_names[j].get(k).map(String::as_str).unwrap_or("");
+                        let name = desc.split(' ').next().unwrap_or("");
+                        let critical = desc.contains("/op_heads/")
+                            || desc.contains("/working_copy/")
+                            || desc.contains("/heads/")
+                            || name.starts_with("unlink")
+                            || k < 2
+                            || k + 2 >= *n;
+                        let important = name.starts_with("rename") || name.starts_with("link");
+                        let take = sample == 1
+                            || critical
+                            || (important && rng.choose(2) == 0)
+                            || rng.choose(sample as usize) == 0;
+                        if take {
+                            items.push(Item { workload: wi as usize, step: j, k, torn: false, prio: if critical { 0 } else if important { 1 } else { 2 } });
                         }
                         // torn variant for writes
-                        if k < *n && r.syscall_names[j][k].starts_with("write ") && (sample == 1 || rng.choose(sample as usize * 2) == 0) {
-                            items.push(Item { workload: wi as usize, step: j, k, torn: true });
+                        if k < *n && desc.starts_with("write ") && (sample == 1 || rng.choose(sample as usize * 2) == 0) {
+                            items.push(Item { workload: wi as usize, step: j, k, torn: true, prio: 2 });
                         }
                     }
                 }
@@ -716,6 +733,8 @@ pub fn check_main(tier: Tier, seed: u64, workers: u64, write_evidence: bool, n_w
         let _ = std::fs::remove_dir_all(&base);
         return 2;
     }
+    // critical points first, so that a time-limited run covers them all
+    items.sort_by_key(|i| i.prio);
     std::fs::write(base.join("plan.json"), serde_json::to_vec(&json!({"workloads": plan})).unwrap()).unwrap();
     println!("reference runs done in {:.1}s: {} kill points in {} commands, {} selected", t0.elapsed().as_secs_f64(), total_points, plan.iter().map(|p| p["kill_points"].as_array().map_or(0, Vec::len)).sum::<usize>(), items.len());
     // Phase B: workers
@@ -832,7 +851,7 @@ pub fn check_main(tier: Tier, seed: u64, workers: u64, write_evidence: bool, n_w
             "faults": {"sigkill_at_syscall_entry": {"fired": killed - torn}, "torn_write_then_kill": {"fired": torn}},
             "killed_syscall_histogram": by_syscall,
             "exhaustive": exhaustive,
-            "exhaustive_note": if sample == 1 { "every kill point of every command of the sampled workloads" } else { "first/last 5 kill points of every command plus a seeded subset of the rest" },
+            "exhaustive_note": if sample == 1 { "every kill point of every command of the sampled workloads" } else { "every kill point touching op_heads/, working_copy/, table heads/, every unlink, the first/last two points; half of the renames; a seeded 1/6 of the remaining data writes; critical points run first" },
             "runs_per_hour": (done as f64 / wall * 3600.0).round(),
             "components_real": ["the unguarded jj binary built from /repo (debug profile)", "system git 2.39 (fsck)", "kernel tmpfs", "jj-lib (oracle reads)"],
             "components_stub": ["none: the crash is a real SIGKILL delivered by a ptrace supervisor"],
